@@ -46,12 +46,17 @@ PINNED = {
     "gap": "max(self.L - self.L_low, self.L_high - self.L)",
     "L_high": "if max_constraint > 0:\n    L_high += self.B * max_constraint",
     "improves": "h_value < best_value - _PRECISION",
+    "L": "error + np.sum(lambda_vec * (gamma - self.constraints.bound()))",
+    "max_constraint": "(gamma - self.constraints.bound()).max()",
+    "L_low": "L_low_mul < result.L_low",
+    "weights": "Qs[self.best_iter_]",
 }
 PINNED_LOOP = json.loads(r"""{"init": {"theta": "pd.Series(0, lagrangian.constraints.index)", "Qsum": "pd.Series(dtype='float64')", "gaps_EG": "[]", "gaps": "[]", "Qs": "[]", "last_regret_checked": "_REGRET_CHECK_START_T", "last_gap": "np.inf", "self.lambda_vecs_EG_": "pd.DataFrame()", "self.lambda_vecs_LP_": "pd.DataFrame()"}, "lambda_vec": "B * np.exp(theta) / (1 + np.exp(theta).sum())", "lambda_EG": "self.lambda_vecs_EG_.mean(axis=1)", "Qsum": ["Qsum.at[h_idx] = 0.0", "Qsum[h_idx] += 1.0"], "Q_EG": "Qsum / Qsum.sum()", "eta": "self.eta0 / B", "skipLP": "t == 0 or not self.run_linprog_step", "regretDue": "t >= last_regret_checked * _REGRET_CHECK_INCREASE_T", "shrinkDue": "best_gap > last_gap * _SHRINK_REGRET", "shrink": "eta *= _SHRINK_ETA", "theta": "theta += eta * (gamma - self.constraints.bound())", "last_iter": "len(Qs) - 1", "evalBreak": "result.gap() > nu + _PRECISION", "_eval": ["error = self.errors[Q.index].dot(Q)", "gamma = self.gammas[Q.index].dot(Q)", "if self.opt_lambda:\n    lambda_vec = self.constraints.project_lambda(lambda_vec)"], "h_value": "h_error + h_gamma.dot(lambda_vec)", "best_h": ["values = self.errors + self.gammas.transpose().dot(lambda_vec)", "best_idx = values.idxmin()", "best_value = values[best_idx]", "best_idx = -1", "best_value = np.inf"]}""")
 PINNED_LP = json.loads(r"""{"c": "np.concatenate((self.errors, [self.B]))", "A_ub": "np.concatenate((self.gammas.sub(self.constraints.bound(), axis=0), -np.ones((n_constraints, 1))), axis=1)", "b_ub": "np.zeros(n_constraints)", "A_eq": "np.concatenate((np.ones((1, n_hs)), np.zeros((1, 1))), axis=1)", "b_eq": "np.ones(1)", "dual_c": "np.concatenate((b_ub, -b_eq))", "dual_A_ub": "np.concatenate((-A_ub.transpose(), A_eq.transpose()), axis=1)", "dual_bounds": "[(None, None) if i == n_constraints else (0, None) for i in range(n_constraints + 1)]", "cache": "self.last_linprog_n_hs == n_hs"}""")
-PINNED_SHA = {"EGGen.lean": "2ac31df88449c15f2f3119914e841d4c389aeff5",
-              "EGLoopGen.lean": "f223b9297f2337250166b7cbcbb00b6841e2718e",
-              "LinProgGen.lean": "fd41ac5a5f6dad60aee18a7c7aae8b5cb7bed893"}
+PINNED_SHA = {"EGGen.lean": "a3796ff4c7f3dd1ba82932ccd1e3207c7ae9f8e4",
+              "EGLoopGen.lean": "3bf997318ec1fca48a0127b9d5ae8395f57cfb8c",
+              "LinProgGen.lean": "7dd187a6194175faa7fab754d1ba4cdaf9927a30",
+              "ProjectLambdaSrc.lean": "da3c0da380a16d666e93922128cb2caf1fe1347b"}
 _LIFTED = {}
 _RP = {}
 
@@ -134,6 +139,10 @@ def lifted_changes():
             info = translate.run(core.REPO)
             meta = info.get("EGGen.lean", {})
             ch = sorted(k for k in PINNED if meta.get(k) != PINNED[k])
+            # a lifter behind a generated file this property imports refused the tree: that file is stale on disk
+            deps = translate.generated_deps("FairModel.Properties.C08X")
+            ch += [f"{fn}:lifter refused" for fn in sorted(info.get("_refused") or {})
+                   if fn in deps or fn in PINNED_SHA or fn.startswith("?")]
             for fn, pinned in (("EGLoopGen.lean", PINNED_LOOP), ("LinProgGen.lean", PINNED_LP)):
                 m = info.get(fn, {})
                 ch += sorted(f"{fn}:{k}" for k in pinned if json.loads(json.dumps(m.get(k))) != pinned[k])
@@ -269,6 +278,14 @@ class CHECK(Check):
 
     # ---------------------------------------------------------------- generation
     def generate(self, rng, tier):
+        """~30 % of the cases give the ExponentiatedGradient object (and therefore its constraints object) a PREVIOUS LIFE
+        (see `impl`); the flag is derived from the case content, so the rng stream is unchanged"""
+        for case in self._generate(rng, tier):
+            if "history" not in case:
+                case = dict(case, history=random.Random(json.dumps(case, sort_keys=True)).random() < 0.3)
+            yield case
+
+    def _generate(self, rng, tier):
         n_yield = 0
         while True:
             n = rng.choice([6, 7, 8, 8, 9, 10, 10, 12, 14, 16])
@@ -367,6 +384,24 @@ class CHECK(Check):
             mk_moment(case), eps=float(F(case["eps"])), max_iter=case["max_iter"],
             nu=None if case["nu"] is None else float(F(case["nu"])), eta0=float(F(case["eta0"])),
             run_linprog_step=case["linprog"])
+        if case.get("history"):
+            # previous life of the SAME estimator (hence the same constraints) object: a fit on an auxiliary data set -- the
+            # case's rows reversed, labels inverted, one extra group -- and one prediction, OUTSIDE the recording, before the
+            # fit that is recorded and judged.  State that survives a refit (memoised supports, caches that fit / load_data do
+            # not reset; seeded changes C10b, C07a) then shows up in the judged fit.  The `nu` latch of fit (known finding F5c,
+            # judged under C19) is undone so that the judged fit starts from the case's own `nu`.
+            x0, y0, g0 = list(case["x"])[::-1], [1 - v for v in case["y"]][::-1], list(case["g"])[::-1]
+            if g0.count(g0[0]) >= 2:
+                g0[0] = "zz"
+            X0, Y0, S0 = containers(dict(case, x=x0, y=y0, g=g0))
+            try:
+                eg.fit(X0, Y0, sensitive_features=S0)
+                Xq0 = test_matrix(case, sorted(set(case["x"])))
+                eg._pmf_predict(Xq0)
+                eg.predict(Xq0, random_state=0)
+            except ValueError:
+                pass        # the known zero-signed-weights crash (F14) on the auxiliary data: no previous life then
+            eg.set_params(nu=None if case["nu"] is None else float(F(case["nu"])))
         try:
             with egreplay.recording() as events:
                 ret = eg.fit(X, y, sensitive_features=sf)
@@ -511,6 +546,17 @@ class CHECK(Check):
 
     # ---------------------------------------------------------------- judging
     def judge(self, case, o, mo):
+        """model-vs-oracle disagreements are HARNESS errors only while the lifted text is the pinned one and no lifter behind a
+        generated file of this property refused; otherwise they are a broken tie (correspondence)"""
+        probs = self._judge(case, o, mo)
+        if any(p.kind == "harness" for p in probs):
+            ch = lifted_changes()
+            if ch:
+                probs = [Problem("correspondence", p.msg + f"; lifted source fragment(s) changed / refused: {ch[:4]}",
+                                 "C08.generated-model-vs-spec") if p.kind == "harness" else p for p in probs]
+        return probs
+
+    def _judge(self, case, o, mo):
         if "crash" in o:
             return [Problem("correspondence", f"implementation crashed: {o}", "impl-total")]
         if "exc" in o:
@@ -713,7 +759,8 @@ class CHECK(Check):
                 "nu=auto" if case["nu"] is None else "nu=given",
                 "max_iter=" + ("1" if case["max_iter"] == 1 else "2-5" if case["max_iter"] <= 5 else
                                "6-15" if case["max_iter"] <= 15 else "16-50"),
-                f"container={case.get('container')}"]
+                f"container={case.get('container')}",
+                "history=refit-after-a-previous-life" if case.get("history") else "history=fresh"]
         nontriv = False
         if case.get("sel"):
             n_rec = self._select_oracle([F(v) for v in case["sel"]["gaps"]], F(case["sel"]["nu"]))
